@@ -276,6 +276,10 @@ class RowNodeGroup:
             # TODO: Check if the source node has a save_name, and use that instead?
             wait_timeout = 0
             variable = "@input.text"
+        if condition_type == "has_group" and self.row_type != "split_by_group":
+            # A has_group test is written with the group name, in any kind of row;
+            # the group uuid is filled in from the name when the container is validated
+            comparison_arguments = [None, condition.value]
 
         if isinstance(exit_node, BasicNode):
             # We have a basic node, but a non-trivial condition.
